@@ -397,6 +397,16 @@ def opSampling (j : Json) : Except String Json := do
   pure (Json.mkObj [("den", jint (2 * ((s : Int) - 1))), ("plain", jlist jtriple (Phase.plain s)),
                     ("symmetric", jlist jtriple (Phase.symmetric s)), ("ties", jnat ties)])
 
+
+/-! ### C03: periodic bookkeeping of the Voronoi generator -/
+
+def opVoro (j : Json) : Except String Json := do
+  let S ← int (← field j "S")
+  let verts ← listOf pairI (← field j "verts")
+  let ridges ← listOf pairI (← field j "ridges")
+  let o := Voro.process S verts ridges
+  pure (Json.mkObj [("edges", jlist jpairN o.edges), ("cross", jlist jpairI o.cross), ("verts", jnats o.verts)])
+
 def dispatch (op : String) (j : Json) : Except String Json :=
   match op with
   | "plaquettes" => opPlaquettes j
@@ -415,6 +425,7 @@ def dispatch (op : String) (j : Json) : Except String Json :=
   | "astar" => opAstar j
   | "dual" => opDual j
   | "sampling" => opSampling j
+  | "voro" => opVoro j
   | "truncate" => opTruncate j
   | "metric" => opMetric j
   | "lateq" => opLatEq j
